@@ -53,9 +53,9 @@ Proof.
   - intros x. split; intros Hx; apply zmem_In; auto.
   - intros b Hb. specialize (H3 b Hb). apply andb_true_iff in H3 as [H3 N]. apply andb_true_iff in H3 as [A B'].
     apply zmem_In in A. apply zmem_In in B'. apply negb_true_iff in N. apply Z.eqb_neq in N. auto.
-  - intros b b' Hb Hb' S. specialize (H2 b Hb). rewrite forallb_forall in H2. specialize (H2 b' Hb').
-    apply orb_true_iff in H2 as [N|E]; [|now apply cbond_eqb_sound]. exfalso. apply negb_true_iff in N. unfold same_endsb in N.
-    destruct S as [[A B']|[A B']]; rewrite A, B', !Z.eqb_refl in N; cbn in N; [discriminate|rewrite orb_true_r in N; discriminate].
+  - clear - H2. induction (c_bonds C) as [|b r IH]; cbn in H2; [constructor|]. apply andb_true_iff in H2 as [A B']. constructor; [|auto].
+    rewrite forallb_forall in A. rewrite Forall_forall. intros b' Hb' S. specialize (A b' Hb'). apply negb_true_iff in A. unfold same_endsb in A.
+    destruct S as [[E1 E2]|[E1 E2]]; rewrite E1, E2, !Z.eqb_refl in A; cbn in A; [discriminate|rewrite orb_true_r in A; discriminate].
   - now apply nodup_strs_sound.
   - intros b Hb. specialize (H0 b Hb). destruct (digit_of (cb_ord b)); [discriminate|discriminate].
 Qed.
@@ -64,7 +64,7 @@ Qed.
 Definition tattrs_okb (C : cut) (name : pystr) (x : Z) (a : attrs) : bool :=
   oeqb (aget (S "fragid") a) (Some (VInt 0)) && oeqb (aget (S "fragname") a) (Some (VStr name))
   && oeqb (aget (S "bonding") a) (bonding_val (descs C x)) && oeqb (aget (S "ez_isomer_atoms") a) None
-  && oeqb (aget (S "aromatic") a) (aget (S "aromatic") (payload C x))
+  && oeqb (aget (S "aromatic") a) (aget (S "aromatic") (payload C x)) && oeqb (aget (S "rs_isomer") a) None
   && forallb (fun kv => str_in (fst kv) reserved || oeqb (aget (fst kv) a) (aget (fst kv) (payload C x))) (payload C x).
 Lemma tattrs_okb_sound C name x a : tattrs_okb C name x a = true -> tattrs_ok C name x a.
 Proof.
